@@ -1,116 +1,19 @@
 /-
-  Request dispatch of the driver.
+  Request dispatch of the driver: chains the topic dispatchers.
 -/
-import DemesVerif.Wire
-import DemesVerif.Model.Views
-import DemesVerif.Model.Close
-import DemesVerif.Spec.Valid
+import DemesVerif.Ops.Core
 namespace Demes.Ops
-open Lean Demes Demes.Wire
+open Lean
 
-def withValue (j : Json) (key : String) (k : Value → Json) : Json :=
-  match j.getObjVal? key with
-  | .error e => Json.mkObj [("fail", .str e)]
-  | .ok a =>
-    match toValue a with
-    | .error e => Json.mkObj [("fail", .str e)]
-    | .ok v => k v
-
-def withGraph (j : Json) (key : String) (k : Graph → Json) : Json :=
-  withValue j key (fun v =>
-    match Read.graph v with
-    | .error e => Json.mkObj [("fail", .str s!"graph reader: {e.msg}")]
-    | .ok g => k g)
-
-def indexJ (g : Graph) : Json :=
-  .arr (g.index.map (fun (k, i) => Json.arr #[.str k, .num i])).toArray
-
-def matJ (m : Matrix) : Json := .arr (m.map (fun row => Json.arr (row.map qJ).toArray)).toArray
-
-def sizeJ : SizeResult → Json
-  | .exact q => Json.mkObj [("exact", qJ q)]
-  | .expo a b dt => Json.mkObj [("expo", .arr #[qJ a, qJ b, qJ dt])]
-  | .nan => Json.mkObj [("nan", .bool true)]
-  | .indexError => Json.mkObj [("error", .str "IndexError")]
-
-def nameMapJ (m : NameMap) : Json :=
-  .arr (m.map (fun (k, vs) => Json.arr #[.str k, .arr (vs.map Json.str).toArray])).toArray
-
-def eventsJ (ev : Events) : Json :=
-  let strs (xs : List String) : Json := .arr (xs.map Json.str).toArray
-  let qs (xs : List Q) : Json := .arr (xs.map qJ).toArray
-  let merge (m : MergeEv) : Json := Json.mkObj [("parents", strs m.parents), ("proportions", qs m.proportions),
-      ("child", .str m.child), ("time", tJ m.time)]
-  Json.mkObj [
-    ("pulses", .arr (ev.pulses.map (fun p => ofValue p.asdict)).toArray),
-    ("splits", .arr (ev.splits.map (fun s => Json.mkObj [("parent", .str s.parent), ("children", strs s.children), ("time", qJ s.time)])).toArray),
-    ("branches", .arr (ev.branches.map (fun b => Json.mkObj [("parent", .str b.parent), ("child", .str b.child), ("time", tJ b.time)])).toArray),
-    ("mergers", .arr (ev.mergers.map merge).toArray),
-    ("admixtures", .arr (ev.admixtures.map merge).toArray)]
+def dispatchers : List (String → Json → Option Json) :=
+  [Core.dispatch?]
 
 def dispatch (j : Json) : Json :=
   match j.getObjValAs? String "op" with
   | .error e => Json.mkObj [("fail", .str e)]
   | .ok op =>
-    if op = "resolve" then
-      withValue j "doc" (fun v =>
-        match resolve v with
-        | .error e => errJ e
-        | .ok g => Json.mkObj [("ok", ofValue g.asdict), ("index", indexJ g)])
-    else if op = "read_asdict" then
-      withGraph j "graph" (fun g => okJ (ofValue g.asdict))
-    else if op = "matrices" then
-      withGraph j "graph" (fun g =>
-        match migrationMatrices g with
-        | .error e => errJ e
-        | .ok (mms, ends) => okJ (Json.mkObj [("mm", .arr (mms.map matJ).toArray), ("end_times", .arr (ends.map qJ).toArray)]))
-    else if op = "valid" then
-      withGraph j "graph" (fun g =>
-        let g := match j.getObjVal? "index" with
-          | .ok (.arr kvs) => { g with index := kvs.toList.filterMap (fun kv => match kv with
-              | .arr #[.str k, .num n] => some (k, n.mantissa.toNat) | _ => none) }
-          | _ => g
-        okJ (.arr ((Spec.failing g).map Json.str).toArray))
-    else if op = "size_at" then
-      withGraph j "graph" (fun g =>
-        withValue j "times" (fun tv =>
-          match tv with
-          | .list ts =>
-            okJ (.arr (g.demes.map (fun d => Json.arr (ts.map (fun t =>
-              match t with
-              | .num n => match n.toETime? with
-                | some et => sizeJ (sizeAt d et)
-                | none => .null
-              | _ => .null)).toArray)).toArray)
-          | _ => Json.mkObj [("fail", .str "times")]))
-    else if op = "pred_succ" then
-      withGraph j "graph" (fun g =>
-        okJ (Json.mkObj [("pred", nameMapJ (predecessors g)), ("succ", nameMapJ (successors g))]))
-    else if op = "events" then
-      withGraph j "graph" (fun g =>
-        match discreteEvents g with
-        | none => Json.mkObj [("err", .str "KeyError")]
-        | some ev => okJ (eventsJ ev))
-    else if op = "in_generations" then
-      withGraph j "graph" (fun g => let g' := inGenerations g
-        Json.mkObj [("ok", ofValue g'.asdict), ("index", indexJ g')])
-    else if op = "rename" then
-      withGraph j "graph" (fun g =>
-        match j.getObjVal? "names" with
-        | .ok (.arr kvs) =>
-          let r : Renaming := kvs.toList.filterMap (fun kv => match kv with
-            | .arr #[.str a, .str b] => some (a, b) | _ => none)
-          let g' := renameDemes g r
-          Json.mkObj [("ok", ofValue g'.asdict), ("index", indexJ g')]
-        | _ => Json.mkObj [("fail", .str "names")])
-    else if op = "isclose" then
-      withGraph j "a" (fun a => withGraph j "b" (fun b =>
-        let tol : Tol := match j.getObjValAs? String "rel", j.getObjValAs? String "abs" with
-          | .ok r, .ok ab => match parseRat r, parseRat ab with
-            | some r, some ab => ⟨r, ab⟩
-            | _, _ => defaultTol
-          | _, _ => defaultTol
-        okJ (.bool (Graph.isclose tol a b))))
-    else Json.mkObj [("fail", .str s!"unknown op {op}")]
+    match dispatchers.findSome? (fun f => f op j) with
+    | some r => r
+    | none => Json.mkObj [("fail", .str s!"unknown op {op}")]
 
 end Demes.Ops
